@@ -61,6 +61,23 @@ CLAIMED = {
              "cone decomposition + apex independence instead), float64 rounding only through the comparison; "
              "moment_inertia_frame / transform_inertia by correspondence only.",
         technique="Lean 4 proof (ring + closed-surface sum theorem) over polynomials regenerated by symbolic tracing + differential correspondence"),
+    "C04": dict(
+        category="proof", design_ref="DESIGN.md 5 C04",
+        text="Lean 4 theorems (ring identities over any field of characteristic 0, for an arbitrary 3x3 block - "
+             "rigid, similarity, mirror, anisotropic, shear) on top of the exact moments of C03 and the traced "
+             "transform_points of C19: group action laws (A then B = B.A, inverse restores), the orientation test "
+             "(L n).(Lu x Lv) = det L |n|^2 is independent of the sampled triangles so faces are re-wound exactly "
+             "when det<0, the true new normal is cof(L) n and for similarities s^2 cof(L) = det L . L (transported "
+             "normals stay parallel and outward; a shear witness shows they do not in general), volume scales by "
+             "det (|det| after the flip), first moments map through L, second moments follow det L . L S L^T, "
+             "squared areas scale by s^4, translation changes volume only by cancelling edge terms. Tied to the "
+             "code by a differential run over 7 geometry kinds x 8 float64-exact matrix classes with normals "
+             "cached or not (points, counts, connectivity, attached data, inverse, composition, mass properties).",
+        note="Trusted: Lean kernel (+propext/Classical.choice/Quot.sound), float64 evaluation on exact matrix "
+             "families, C03's moments as the meaning of volume/centre/inertia. Partial: point clouds, paths, "
+             "primitives, scenes and voxel grids are covered by the correspondence only ('points move to M.p, "
+             "nothing else changes'); a primitive refusing a non-rigid or mirrored matrix (ValueError) is accepted.",
+        technique="Lean 4 proof (polynomial identities over exact moments) + differential correspondence"),
     "C05": dict(
         category="proof", design_ref="DESIGN.md 5 C05",
         text="Lean 4 theorems for arbitrary face lists (non-manifold, repeated indices, repeated faces, "
